@@ -29,6 +29,7 @@ void runFs(const Scn &scn, Out &out);
 void runSlot(const Scn &scn, Out &out);
 void runLauth(const Scn &scn, Out &out);
 void runProxy(const Scn &scn, Out &out);
+void runLife(const Scn &scn, Out &out);
 
 QByteArray errorPage(int code, const QByteArray &reason, bool nullReason);
 // one event-loop turn: timers and queued calls, then deferred deletes
